@@ -105,11 +105,11 @@ def cycle_write(ctx):
                         bad = 'producer re-timed %d times (producing=%d)' % (act, producing)
                     if producing and res_err:
                         # rollback: old value written back, error returned
-                        vals = [show(strip(c[4].kids[3])) for c in writes]
-                        if len(writes) != 2 or t.ret != RANGE or vals[1] != '&ous':
-                            bad = 'unresolvable period is not rolled back (writes %s, returns %s)' % (vals, t.ret)
-                        st = [e[5] for e in t.stores()]
-                        if st[-1:] != ['ous']:
+                        vals = [c[5].get(2) for c in writes]
+                        if len(writes) != 2 or t.ret != RANGE or vals[1] != 10000:
+                            bad = 'unresolvable period is not rolled back (values written %s, returns %s)' % (vals, t.ret)
+                        st = [e[2] for e in t.stores()]
+                        if st[-1:] != [10000]:
                             bad = 'cached cycle after rollback is %s, required the previous value' % st[-1:]
                     else:
                         if len(writes) != 1 or t.ret != NONE:
